@@ -216,7 +216,7 @@ func RunChild(scn int, sc Scenario, out string) error {
 			hq := false
 			select {
 			case <-finished:
-			case <-time.After(20 * time.Second):
+			case <-time.After(10 * time.Second):
 				hq = true
 			}
 			sq2 := ""
@@ -247,7 +247,7 @@ func RunChild(scn int, sc Scenario, out string) error {
 		h2 := false
 		select {
 		case <-finished:
-		case <-time.After(20 * time.Second):
+		case <-time.After(10 * time.Second):
 			h2 = true
 		}
 		s2 := ""
